@@ -107,4 +107,68 @@ theorem scatter_first_failure (f : α → α → Except Err α) (src : Nat → E
     (e : Err) (ts : List (Except Err Nat)) (k : Nat) (d : List α) :
     (scatter f src (.error e :: ts) k d).1 = d := rfl
 
+/-! ### two-index forms -/
+
+
+theorem pos_inj (rows r c r' c' : Nat) (hr : r < rows) (hr' : r' < rows) (h : c * rows + r = c' * rows + r') : r = r' ∧ c = c' := by
+  have h1 : (c * rows + r) % rows = r := by rw [Nat.mul_comm, Nat.mul_add_mod]; exact Nat.mod_eq_of_lt hr
+  have h2 : (c' * rows + r') % rows = r' := by rw [Nat.mul_comm, Nat.mul_add_mod]; exact Nat.mod_eq_of_lt hr'
+  have hrr : r = r' := by rw [← h1, ← h2, h]
+  subst hrr
+  have hpos : 0 < rows := by omega
+  have : c * rows = c' * rows := by omega
+  exact ⟨rfl, Nat.eq_of_mul_eq_mul_right hpos this⟩
+
+theorem nodup_map_of_inj_on {β γ : Type} (g : β → γ) : ∀ (l : List β), l.Nodup →
+    (∀ a ∈ l, ∀ b ∈ l, g a = g b → a = b) → (l.map g).Nodup := by
+  intro l
+  induction l with
+  | nil => intro _ _; simp
+  | cons a as ih =>
+    intro hnd hinj
+    obtain ⟨ha, has⟩ := List.nodup_cons.mp hnd
+    simp only [List.map_cons, List.nodup_cons]
+    refine ⟨?_, ih has (fun x hx y hy => hinj x (List.mem_cons_of_mem _ hx) y (List.mem_cons_of_mem _ hy))⟩
+    intro hmem
+    obtain ⟨b, hb, hbe⟩ := List.mem_map.mp hmem
+    have := hinj a List.mem_cons_self b (List.mem_cons_of_mem _ hb) hbe.symm
+    subst this; exact ha hb
+
+/-- the column-major position of the 1-based cell (r, c) -/
+def cellPos (m : Mat α) (p : Nat × Nat) : Nat := (p.2 - 1) * m.rows + (p.1 - 1)
+
+theorem rcTarget_ok (m : Mat α) (r c p : Nat) :
+    rcTarget m r c = .ok p ↔ (1 ≤ r ∧ r ≤ m.rows ∧ 1 ≤ c ∧ c ≤ m.cols ∧ p = cellPos m (r, c)) := by
+  unfold rcTarget cellPos
+  constructor
+  · intro h
+    obtain ⟨r0, hr0, h⟩ := bindE_ok.mp h
+    obtain ⟨c0, hc0, h⟩ := bindE_ok.mp h
+    obtain ⟨a1, a2⟩ := pred1_ok.mp hr0
+    obtain ⟨b1, b2⟩ := pred1_ok.mp hc0
+    split at h
+    · next hlt => simp only [Except.ok.injEq] at h; subst a2; subst b2; exact ⟨a1, by omega, b1, by omega, h.symm⟩
+    · cases h
+  · rintro ⟨h1, h2, h3, h4, h5⟩
+    apply bindE_ok.mpr
+    refine ⟨r - 1, pred1_ok.mpr ⟨h1, rfl⟩, ?_⟩
+    apply bindE_ok.mpr
+    refine ⟨c - 1, pred1_ok.mpr ⟨h3, rfl⟩, ?_⟩
+    have : r - 1 < m.rows ∧ c - 1 < m.cols := by omega
+    rw [if_pos this, h5]
+
+theorem cellPos_inj (m : Mat α) (p p' : Nat × Nat) (hp : 1 ≤ p.1 ∧ p.1 ≤ m.rows ∧ 1 ≤ p.2) (hp' : 1 ≤ p'.1 ∧ p'.1 ≤ m.rows ∧ 1 ≤ p'.2)
+    (h : cellPos m p = cellPos m p') : p = p' := by
+  unfold cellPos at h
+  obtain ⟨a, b⟩ := pos_inj m.rows (p.1 - 1) (p.2 - 1) (p'.1 - 1) (p'.2 - 1) (by omega) (by omega) h
+  apply Prod.ext <;> omega
+
+theorem mem_pairs (R C : List Nat) (p : Nat × Nat) : p ∈ pairs R C ↔ p.1 ∈ R ∧ p.2 ∈ C := by
+  unfold pairs
+  simp only [List.mem_flatMap, List.mem_map]
+  constructor
+  · rintro ⟨c, hc, r, hr, e⟩; subst e; exact ⟨hr, hc⟩
+  · rintro ⟨hr, hc⟩; exact ⟨p.2, hc, p.1, hr, rfl⟩
+
+
 end MechVerif.Assign
